@@ -1,4 +1,5 @@
 import Sm9.Proofs.JacobianInst2
+import Sm9.Proofs.SpecGroup
 /-!
 # C05 — Scalar multiplication is the Z_r-module action on G1 and G2
 `P * k` is `k.val • P` in Mathlib's group, for every valid P (identity included, any
@@ -81,5 +82,22 @@ theorem mul_zero_scalar {F} [FieldElement F] (p : G F) : p.mul 0 = G.zero := by
   unfold G.mul G.mulBits
   have : bitsMSB (0 : Fr).val = [] := by decide +kernel
   rw [this]; rfl
+
+/-! ## against the independent double-and-add over affine arithmetic
+
+`Sm9.Spec.ptMul` (the oracle of the correspondence run) is a right-to-left double-and-add over the textbook affine law `ptAdd`,
+on `Option (x, y)` with naturals mod q — written without reference to the Jacobian code.  For every valid point in any
+representation and every scalar it returns the affine coordinates of the model's `P * k` (Proofs/SpecGroup.lean:
+`ptMul K k (enc a) = enc (k • a)` for any additive monoid that `ptAdd` implements, then C04/C05's refinement of Mathlib's group). -/
+theorem mul_is_independent_double_and_add :
+    (∀ (P : G1) (k : Fr), G1.Valid P →
+      Spec.ptMul Spec.opsQ k.val (SpecGroup.encPt1 (G1.toAff P)) = SpecGroup.encPt1 (G1.toAff (P.mul k))) ∧
+    (∀ (P : G2) (k : Fr), G2.Valid P →
+      Spec.ptMul Spec.opsQ2 k.val (SpecCurve.encPt (G2.toAff P)) = SpecCurve.encPt (G2.toAff (P.mul k))) :=
+  ⟨fun P k hP => SpecGroup.g1_mul_independent P hP k, fun P k hP => SpecGroup.g2_mul_independent P hP k⟩
+/-- the oracle's generators are the model's -/
+theorem generators_are_the_standards :
+    Spec.P1 = SpecGroup.encPt1 (G1.toAff (G.one : G1)) ∧ Spec.P2 = SpecCurve.encPt (G2.toAff (G.one : G2)) :=
+  ⟨SpecGroup.P1_eq, SpecGroup.P2_eq⟩
 
 end Sm9.C05
